@@ -38,7 +38,7 @@ type Diag struct {
 }
 
 type CompileResult struct {
-	Exit     int  // process exit code (-1 = killed/timeout)
+	Exit     int // process exit code (-1 = killed/timeout)
 	TimedOut bool
 	Signal   string
 	Out      string // stdout+stderr, ANSI stripped
@@ -136,18 +136,18 @@ func CrashSite(out string) string {
 }
 
 type CompileOpts struct {
-	Target    string // "" | native | wasm
-	TypeOnly  bool
-	KeepGen   bool
-	Out       string // -o
-	Env       []string
-	Timeout   time.Duration
-	Entry     string // default main.fer
-	ExtraArgs []string
-	ForceCLI  bool
-	Debug     bool // -d
-	GoMaxProcs int   // 0 = default
-	Sched     string // FERRET_VERIF_SCHED value
+	Target     string // "" | native | wasm
+	TypeOnly   bool
+	KeepGen    bool
+	Out        string // -o
+	Env        []string
+	Timeout    time.Duration
+	Entry      string // default main.fer
+	ExtraArgs  []string
+	ForceCLI   bool
+	Debug      bool   // -d
+	GoMaxProcs int    // 0 = default
+	Sched      string // FERRET_VERIF_SCHED value
 }
 
 // Compile compiles the project in dir: through the persistent server when one is
